@@ -310,11 +310,7 @@ impl<'a> Interp<'a> {
                 } else {
                     let v6 = src.chance(128);
                     let ip: IpAddr = if v6 {
-                        let mut a = [0u8; 16];
-                        for b in a.iter_mut() {
-                            *b = src.u8();
-                        }
-                        IpAddr::V6(Ipv6Addr::from(a))
+                        IpAddr::V6(Ipv6Addr::from(crate::gens::gen_v6(src)))
                     } else {
                         IpAddr::V4(Ipv4Addr::new(src.u8(), src.u8(), src.u8(), src.u8()))
                     };
